@@ -52,6 +52,8 @@ func resolveBoolArg(p *Program, fn *ssa.Function, v ssa.Value, from *ssa.Functio
 }
 
 func runC19(c *Ctx) {
+	// U1: height / round arithmetic on unsigned integers never wraps into a comparison
+	checkUnsignedDifferences(c, "C19.U1 unsigned-difference-guarded", func(fn *ssa.Function) bool { return strings.HasPrefix(FuncKey(fn), "pkg/consensus/sync.") }, c19UnsignedTable, 0)
 	p := c.P
 	c.Assume = append(c.Assume, "convergence, gap arithmetic and behaviour against stalling peers are not decided")
 	best := c.Anchor("pkg/consensus/sync.getBestNodeInfo")
@@ -464,4 +466,9 @@ func checkRunningMax(c *Ctx, fn *ssa.Function, isCand func(*Term) bool, what str
 		}
 		c.Require("C19.R1 running-extremum", FuncKey(fn)+": ties kept", p.Pos(fn.Pos()), "candidates equal to the maximum stay in the group", tie, "")
 	}
+}
+
+var c19UnsignedTable = []unsignedRow{
+	{fn: "pkg/consensus/sync.(*fastSyncer).Sync", frag: "(*blockchain.Chain).LastBlock(p0.chain).Header.Height − ", reason: "the common block header is looked up in the node's own chain by getCommonBlock (GetBlockHeader of the returned ID), so its height is at most the tip's"},
+	{fn: "pkg/consensus/sync.(*fastSyncer).Sync", frag: "(p1.Block.Header.Height − ", reason: "a peer tip below the common block it named wraps the difference above two rounds, which is the abort branch: the safe outcome"},
 }
